@@ -13,7 +13,7 @@ UNIT = Unit(
              "lambda lifting, A-normalisation and Go generation run — the back end is entered only on a program for which no stage reported an error (the same rule "
              "separate::build_package follows, U-CHKBUILD)",
     trusted=["FRAGMENTS typer_gate (from `let tast = full_tast;` to `let gensym`) and core_gate (from `let core = link_packages(..)` to the construction of the result): everything "
-             "else in compile() — parsing, package loading, the per-package loop that calls the match compiler — is dropped; the four back-end calls mono / lambda_lift / anf_file / "
+             "else in compile() — parsing, package loading, the per-package loop that calls the match compiler — is dropped; FRAGMENT link_gate (separate::link_cores from its error test to the result; the concatenation of the Core files of the packages is replaced by the stub concat_cores: NOT verified); the four back-end calls mono / lambda_lift / anf_file / "
              "go_file are read as ONE stub `backend` whose precondition is `no error so far` (site rewrite of the four `let` statements)",
              "Diagnostics is opaque (uninterpreted errors()); CompilationError is the real enum"],
     items=[
@@ -32,5 +32,18 @@ UNIT = Unit(
                           "let __out = backend(Ghost(diagnostics.errors()), &genv, &gensym, &core);", 1)],
            obligation="errors of Core generation end the compilation with Err(Compile) before the back end runs",
            contract="ensures r is Ok ==> !diagnostics.errors(), r is Err ==> r matches Err(CompilationError::Compile { .. }),"),
+        Fn(file="crates/compiler/src/pipeline/separate.rs", name="link_cores", rename="link_gate", ret="r",
+           cut_from="let order = topo_sort(&by_name)?;", cut_before="Ok(LinkOutput {", cut_tail="    Ok(__out)",
+           sig="fn link_gate(by_name: CoreMap) -> Result<BackendOut, CompilationError>",
+           pre_rewrites=[("let order = topo_sort(&by_name)?;", "let order = match topo_sort(&by_name) { Ok(o) => o, Err(e) => { return Err(e); } };", 1),
+                         # the loop that merges the packages' exports and reports duplicate trait implementations (U-COHERE): its result is the environment and the diagnostics
+                         (re.compile(r"let mut genv = GlobalTypeEnv::new\(\);\s*let mut diagnostics = Diagnostics::new\(\);\s*for pkg in order\.iter\(\) \{.*?\n    \}\n(?=\s*if diagnostics\.has_errors|\s*let mut linked)", re.S),
+                          "let (genv, diagnostics) = merge_exports(&by_name, &order);\n", 1),
+                         (re.compile(r"let mut linked = crate::core::File \{.*?\n    \}\n(?=\s*let gensym)", re.S), "let linked = concat_cores(&by_name, order);\n", 1),
+                         (re.compile(r"let gensym = Gensym::new\(\);\s*let \(mono, monoenv\) = mono::mono\(genv\.clone\(\), linked\.clone\(\)\);\s*let \(lifted, liftenv\) = lift::lambda_lift\([^;]*\);\s*"
+                                     r"let \(anf, anfenv\) = crate::anf::anf_file\([^;]*\);\s*let \(go, goenv\) = go::compile::go_file\([^;]*\);"),
+                          "let gensym = gensym_new(); let __out = backend(Ghost(diagnostics.errors()), &genv, &gensym, &linked);", 1)],
+           obligation="`link`: a duplicate trait implementation across the linked packages ends the link with an error before the back end runs",
+           contract=""),
     ],
 )
